@@ -216,7 +216,7 @@ pub fn run(ctx: &mut Ctx) {
     ctx.run_prop(n_gram, 1, strat, |ctx, (g, specs)| check_case(ctx, g, specs));
     // stack-heavy stream: nested snapshots, pops across snapshot lines, failing alternatives after pops
     let n_stack = ctx.share(ctx.tier.pick(40_000, 1_000_000));
-    let strat = (stack_heavy_grammar(), proptest::collection::vec(spec_strategy(), 16));
+    let strat = (proptest::strategy::Union::new(vec![stack_heavy_grammar(), stack_heavy_grammar(), stack_loop_grammar()]), proptest::collection::vec(spec_strategy(), 16));
     ctx.run_prop(n_stack, 3, strat, |ctx, (g, specs)| {
         ctx.class("stream:stack-heavy");
         check_case(ctx, g, specs)
